@@ -383,8 +383,8 @@ def _root_tests(sx: SymX, fs, rel: Term, root: Term | None = None) -> dict[str, 
                 out[key] = True
         else:
             l = loc(t)
-            if l == ("attr", rel, "parts"):
-                out[key] = False
+            if l in (("attr", rel, "parts"), ("attr", rel, "name"), ("attr", rel, "stem")):
+                out[key] = False  # the empty relative path `.` has no parts and an empty name
             elif t[0] == "call" and t[1] == ("builtin", "len") and len(t[2]) == 1 and loc(t[2][0]) == ("attr", rel, "parts"):
                 out[key] = False
     return out
@@ -498,7 +498,60 @@ def _mapped_source(t: Term) -> Term:
         return _mapped_source(u[3][0][1])
     if u[0] == "call" and u[1] == ("builtin", "map") and len(u[2]) == 2:
         return _mapped_source(u[2][1])
+    if u[0] in ("binop", "list", "tuple"):
+        # `[f(x) for x in p] + [f(y)]` is `[f(z) for z in p + [y]]`: positions in it are positions in `p + [y]`
+        parts = seq(u)
+        mapped = [c for k, x in parts if k == "many" and (c := _comp_of(x)) is not None and c[0] != c[1]]
+        if len(parts) >= 2 and mapped:
+            elt, tgt, _src = mapped[0]
+            acc: Term | None = None
+            for kind, x in parts:
+                if kind == "many":
+                    c = _comp_of(x)
+                    if c is None or _match(elt, c[0], tgt) != c[1]:
+                        return t
+                    piece = _mapped_source(c[2])
+                else:
+                    y = _match(elt, x, tgt)
+                    if y is None:
+                        return t
+                    piece = ("list", (y,))
+                acc = piece if acc is None else ("binop", "+", acc, piece)
+            assert acc is not None
+            return acc
     return t
+
+
+def _comp_of(t: Term):
+    """(element, target, source) of an unfiltered comprehension with one generator (through list() / tuple() and containers)."""
+    u = t
+    while True:
+        if u[0] == "box" and u[3][0] in ("call", "comp"):
+            u = u[3]
+        elif u[0] == "call" and u[1] in (("builtin", "list"), ("builtin", "tuple")) and len(u[2]) == 1:
+            u = u[2][0]
+        else:
+            break
+    if u[0] == "comp" and u[1] in ("list", "gen") and len(u[3]) == 1 and not [c for c in u[3][0][2] if c != TRUE]:
+        return u[2], u[3][0][0], u[3][0][1]
+    return None
+
+
+def _match(pattern: Term, value: Term, var: Term):
+    """The term that `var` must stand for to make `pattern` equal to `value` (None if there is none or `var` does not occur)."""
+    found: list = []
+
+    def go(p_, v_) -> bool:
+        if p_ == var:
+            found.append(v_)
+            return True
+        if isinstance(p_, tuple) and isinstance(v_, tuple) and len(p_) == len(v_):
+            return all(go(a_, b_) for a_, b_ in zip(p_, v_))
+        return p_ == v_
+
+    if go(pattern, value) and found and all(f_ == found[0] for f_ in found):
+        return found[0]
+    return None
 
 
 def _slice_len(lo, hi):
